@@ -104,11 +104,19 @@ def correspondence(ctx, model_ok):
             subsets.append(tuple(base + extra))
         groups = {}
         for names in subsets:
-            g = DimensionGroup(u, names)
+            key = f"{tag}:{','.join(names)}"
+            try:
+                g = DimensionGroup(u, names)
+            except Exception as e:
+                viol(f"[{tag}] DimensionGroup({list(names)}) raises {type(e).__name__}: {str(e)[:80]}", "raise:" + key, {"kind": "group", "universe": tag, "names": list(names)})
+                continue
             ctx.evaluations += 1
             want = lfp(dep, names)
             got = set(g.names)
-            key = f"{tag}:{','.join(names)}"
+            if g.universe is not u:
+                viol(f"[{tag}] DimensionGroup({list(names)}) belongs to another universe (version {g.universe.version}, asked for {u.version})",
+                     "universe:" + key, {"kind": "group", "universe": tag, "names": list(names)})
+                continue
             if len(want) > len(set(names)):
                 ctx.nontrivial.add(key)
             if got != want:
@@ -182,16 +190,25 @@ def correspondence(ctx, model_ok):
             a, b = G[i], G[j]
             na, nb = set(a.names), set(b.names)
             ctx.evaluations += 1
-            un, it = a | b, a & b
+            try:
+                un, it = a | b, a & b
+            except Exception as e:
+                viol(f"[{tag}] {list(a.names)} | / & {list(b.names)} raises {type(e).__name__}: {str(e)[:80]}", f"pair-raise:{tag}:{sorted(na)}:{sorted(nb)}",
+                     {"kind": "pair", "universe": tag, "a": sorted(na), "b": sorted(nb)})
+                continue
             problems = []
+            if un.universe is not u or it.universe is not u:
+                problems.append("the result belongs to another universe")
             if set(un.names) != lfp(dep, na | nb):
                 problems.append(f"union = {list(un.names)}")
             if set(it.names) != lfp(dep, na & nb) or set(it.names) != (na & nb):
                 problems.append(f"intersection = {list(it.names)} (common names {sorted(na & nb)})")
-            if (a <= b) != (na <= nb) or (a >= b) != (na >= nb) or (a < b) != (na < nb) or (a == b) != (na == nb):
-                problems.append("comparison operators disagree with name sets")
-            if a.isdisjoint(b) != na.isdisjoint(nb) or a.issubset(b) != (na <= nb):
-                problems.append("isdisjoint/issubset disagree with name sets")
+            for sym, got_, want_ in (("<=", a <= b, na <= nb), (">=", a >= b, na >= nb), ("<", a < b, na < nb), (">", a > b, na > nb),
+                                     ("==", a == b, na == nb), ("!=", a != b, na != nb)):
+                if got_ != want_:
+                    problems.append(f"`{sym}` is {got_}, the name sets say {want_}")
+            if a.isdisjoint(b) != na.isdisjoint(nb) or a.issubset(b) != (na <= nb) or a.issuperset(b) != (na >= nb):
+                problems.append("isdisjoint/issubset/issuperset disagree with name sets")
             if a == b and hash(a) != hash(b):
                 problems.append("equal groups hash differently")
             # lub / glb against every closed group is implied by the two equalities above
